@@ -242,3 +242,19 @@ func vh_C11_Handlers() {
 	}
 	vfReach("end")
 }
+
+// the util-instance constructor MonadIO.New(effect) is as lazy and as exactly-once as MonadIONewGenerics
+func vh_C11_UtilInstance() {
+	effects := 0
+	x := vfInt("x")
+	m := MonadIO.New(func() interface{} { effects++; return vfFn("E", x) })
+	m2 := m.FlatMap(func(v interface{}) *MonadIODef[interface{}] {
+		return MonadIOJustGenerics[interface{}](vfFn("K", v.(int)))
+	})
+	vfAssert("lazy-no-effect-at-construction", effects == 0)
+	var got interface{}
+	vfNoPanic("nopanic", func() { got = m2.Eval() })
+	vfAssert("effect-exactly-once", effects == 1)
+	vfAssert("value", got == interface{}(vfFn("K", vfFn("E", x))))
+	vfReach("end")
+}
